@@ -20,9 +20,12 @@ MAX_COUNT = 65536
 
 # position options of a child: (row, column) attachment, None = absent
 POS = [(None, None), (0, None), (2, None), (None, 0), (None, 1), (None, 2), (1, 1), (2, 0),
-       (-1, None), (None, -1), (None, 70000)]
+       (-1, None), (None, -1), (None, 70000),
+       # beyond 16 and 32 bits (values whose low 32 bits would be acceptable indices)
+       (65536, None), (4294967297, None), (None, 4294967296), (-4294967295, None), (None, 2147483648)]
 FLOWS = ["LeftToRight", "TopToBottom"]
 COUNTS = [None, 1, 2, 3]
+WILD_COUNTS = [0, -1, 65536, 65537, 2147483648, 4294967296, 4294967298, -4294967294]     # judged on a 2-child grid
 
 
 class Reject(Exception):
@@ -271,7 +274,7 @@ def grid_position_jobs(tier):
                                [(r, c, {}, None, None, None) for (r, c) in seq])
     # bad counts
     for flow in FLOWS:
-        for count in (0, -1, 65536, 65537):
+        for count in WILD_COUNTS:
             yield ("counts", "QGridLayout", flow, count, [(None, None, {}, None, None, None)] * 2)
 
 
